@@ -647,3 +647,34 @@ func kase(g *vlib.G, key string, run func(t *vlib.T)) {
 		}
 	})
 }
+
+// ---------------------------------------------------------------------------
+// Enumeration levels. The declared case space has three sizes:
+//
+//	level 0 ("lite"):  noasm configuration, quick tier
+//	level 1 ("quick"): default configuration, quick tier; noasm configuration, thorough tier
+//	level 2 ("full"):  default configuration, thorough tier
+//
+// The noasm build only swaps the BLAS kernels underneath identical LAPACK
+// code, so it runs one level below the default build.
+func lvl(g *vlib.G) int {
+	noasm := vlib.Env("VERIF_CONFIG", "default") == "noasm"
+	switch {
+	case g.Thorough() && !noasm:
+		return 2
+	case g.Thorough() || !noasm:
+		return 1
+	}
+	return 0
+}
+
+// p3 picks a value by level.
+func p3[V any](g *vlib.G, l0, l1, l2 V) V {
+	switch lvl(g) {
+	case 0:
+		return l0
+	case 1:
+		return l1
+	}
+	return l2
+}
